@@ -2,12 +2,16 @@ import CashewsVerif.Lemmas.TxSchedCounter
 import CashewsVerif.Lemmas.TxSchedOwn
 import CashewsVerif.Lemmas.TxSchedCheck
 import CashewsVerif.Lemmas.TxSchedPhase
+import CashewsVerif.Lemmas.TxSchedSeg
 /-
 C05 — concurrent transactions commit exactly their own writes; no lost increments.
 
 The theorems quantify over *every* schedule `sched : List Act` (`run tid` = the task executes the backend
-command it is parked before and runs on to its next one; `adv d` = time passes, timers fire), every number
-of tasks, every program, every initial store.  Property theorems only; the lemmas live in
+command it is parked before and runs on to its next one; `adv d` = time passes, timers fire; `cancel tid` =
+`task.cancel()` reaches the task at the suspension point of its body it is parked at), every number
+of tasks, every program (bodies may call `tx.commit()` / `tx.rollback()` themselves, any number of times, and go
+on), every initial store.  A block ends in one of the five ways of `Outcome`: the body returned, raised an `Exception`,
+raised a `BaseException` that is not an `Exception`, got `LockedError`, or the task was cancelled inside it.  Property theorems only; the lemmas live in
 `Lemmas/TxSched{Basic,Inv,Locks,Counter,Own}.lean`, the model in `Model/TxSched.lean`, the sequential
 meaning of a body in `Spec/TxBody.lean`.
 -/
@@ -56,24 +60,36 @@ no command of `j` can be captured by `i`'s transaction -/
 theorem step_frame (w : World) (tid i : Nat) (h : i ≠ tid) : (w.runTask tid).tasks i = w.tasks i :=
   runTask_tasks_ne w tid h
 
-/-- **Own writes only.**  Under every schedule, for every task `i` that is a transaction block
-(context-manager or decorator form — the form is not looked at by any rule —, nested blocks inside):
-* if its caller got a normal return with results `rs`, then the body's sequential meaning (`specBody`, a fold
-  that knows nothing of locks, schedules or other tasks) on the values its backend reads returned ran to the
-  end with exactly those results, and the store mutations made by the steps of `i` are exactly the commit of
-  that body's write-set (`delete_many` of its deletions, `set_many` of its overlay) — nothing else, nothing less;
-* if the caller got the body's exception, the spec raises too and no step of `i` mutated the store;
-* if the caller got `LockedError`, no step of `i` mutated the store.
+/-- **Own writes only.**  Under every schedule (cancellations included), for every task `i` that is a transaction
+block (context-manager or decorator form — the form is not looked at by any rule —, nested blocks inside, explicit
+`tx.commit()` / `tx.rollback()` calls inside).  `specBody` is the body's sequential meaning, a fold that knows nothing of
+locks, schedules or other tasks: a body is a sequence of segments separated by its explicit commits / rollbacks;
+`s.done` = the commits of the explicitly committed segments, `commitMuts s` = the commit of the segment open at the end.
+* If the caller got a normal return with results `rs`: the spec, on the values the task's backend reads returned, ran to
+  the end with exactly those results, and the store mutations made by the steps of `i` are exactly: the commit of
+  every explicitly committed segment, then the commit of the last segment (`delete_many` of its deletions, `set_many`
+  of its overlay) — nothing else, nothing less; the increments made durable are those of these segments.
+* If the caller got the body's own exception — an `Exception` (`raisedBody`) or a `BaseException` that is not an
+  `Exception` (`raisedBase`) —, got `LockedError`, or got `CancelledError` because the task was cancelled while
+  suspended inside the body: the body stopped after an executed part `p` (for the body's own exception: right
+  before that `raise`), and the store mutations made by the steps of `i` are exactly the commits of the segments `p`
+  committed explicitly (`s.done`) — NOTHING of the segment that was open (for a body without explicit commits:
+  nothing at all, `interrupted_block_applies_nothing`).
 And the store is nothing but the initial store with the logged mutations applied in order. -/
 theorem own_writes_only (store : Store) (ts : List Task) (hf : FreshTasks ts) (sched : List Act) (i : Nat)
     (htx : ((World.init store ts).tasks i).isTx = true) :
     let w := (World.init store ts).run sched
     let p0 := ((World.init store ts).tasks i).prog
     (∀ rs, (w.tasks i).pc = .finished (.returned rs) →
-      ∃ s, specBody p0 (w.tasks i).reads {} = .normal s [] ∧ rs = s.results ∧ mineOf w i = commitMuts s) ∧
-    ((w.tasks i).pc = .finished .raisedBody →
-      specBody p0 (w.tasks i).reads {} = .raised ∧ mineOf w i = []) ∧
-    ((w.tasks i).pc = .finished .raisedLocked → mineOf w i = []) ∧
+      ∃ s, specBody p0 (w.tasks i).reads {} = .normal s [] ∧ rs = s.results ∧ mineOf w i = s.done ++ commitMuts s ∧
+        (w.tasks i).cinc = s.cinc ++ s.pend) ∧
+    (∀ b, (w.tasks i).pc = .finished (if b then .raisedBase else .raisedBody) →
+      specBody p0 (w.tasks i).reads {} = .raised ∧
+      ∃ p rest s, p0 = p ++ .raise b :: rest ∧ specBody p (w.tasks i).reads {} = .normal s [] ∧
+        mineOf w i = s.done ∧ (w.tasks i).cinc = s.cinc) ∧
+    (((w.tasks i).pc = .finished .raisedLocked ∨ (w.tasks i).pc = .finished .cancelled) →
+      ∃ p rest s, p0 = p ++ rest ∧ specBody p (w.tasks i).reads {} = .normal s [] ∧
+        mineOf w i = s.done ∧ (w.tasks i).cinc = s.cinc) ∧
     w.store = (w.log.map (·.2)).foldl Mut.apply store := by
   intro w p0
   have hx : (w.tasks i).isTx = true := (isTx_run store ts sched i).trans htx
@@ -87,21 +103,107 @@ theorem own_writes_only (store : Store) (ts : List Task) (hf : FreshTasks ts) (s
   · intro rs hpc
     have := hctx _ hpc
     simpa only [OWpark, hpc, Done] using this
-  · intro hpc
+  · intro b hpc
     have := hctx _ hpc
-    simpa only [OWpark, hpc, Done] using this
+    cases b
+    · simp only [Bool.false_eq_true, if_false] at hpc
+      simp only [OWpark, hpc, Done] at this
+      obtain ⟨h1, p, rest, s, hp, ⟨r, hr⟩, hs, hm, hci⟩ := this
+      exact ⟨h1, p, r, s, by rw [hp, hr], hs, hm, hci⟩
+    · simp only [if_true] at hpc
+      simp only [OWpark, hpc, Done] at this
+      obtain ⟨h1, p, rest, s, hp, ⟨r, hr⟩, hs, hm, hci⟩ := this
+      exact ⟨h1, p, r, s, by rw [hp, hr], hs, hm, hci⟩
   · intro hpc
-    have := hctx _ hpc
-    simpa only [OWpark, hpc, Done] using this
+    rcases hpc with hpc | hpc
+    · have := hctx _ hpc
+      simp only [OWpark, hpc, Done] at this
+      obtain ⟨p, rest, s, hp, _, hs, hm, hci⟩ := this
+      exact ⟨p, rest, s, hp, hs, hm, hci⟩
+    · have := hctx _ hpc
+      simp only [OWpark, hpc, Done] at this
+      obtain ⟨p, rest, s, hp, _, hs, hm, hci⟩ := this
+      exact ⟨p, rest, s, hp, hs, hm, hci⟩
+
+/-- **A block that does not end by returning applies nothing** (rollback is the identity on the store — for every kind
+of exit with an exception).  The body calls no `tx.commit()` itself.  Whatever ends the block other than a normal
+return — the body's own `Exception`, a `BaseException` that is not an `Exception`, `LockedError`, or the cancellation
+of the task while it is suspended inside the body (after any number of buffered writes, while waiting for a lock,
+in a sleep) — no step of the task ever mutated the store, under every schedule.  (Seeded changes C03-5 / C05-4 decided
+with `isinstance(exc_value, Exception)` and committed the half-done transaction of a cancelled task.) -/
+theorem interrupted_block_applies_nothing (store : Store) (ts : List Task) (hf : FreshTasks ts) (sched : List Act) (i : Nat)
+    (htx : ((World.init store ts).tasks i).isTx = true)
+    (hn : NoExplicit ((World.init store ts).tasks i).prog) (o : Outcome) (ho : ∀ rs, o ≠ .returned rs) :
+    let w := (World.init store ts).run sched
+    (w.tasks i).pc = .finished o → mineOf w i = [] ∧ (w.tasks i).cinc = [] := by
+  intro w hpc
+  have key : ∀ p rest s, ((World.init store ts).tasks i).prog = p ++ rest →
+      specBody p (w.tasks i).reads {} = .normal s [] → mineOf w i = s.done → (w.tasks i).cinc = s.cinc →
+      mineOf w i = [] ∧ (w.tasks i).cinc = [] := by
+    intro p rest s hp hs hm hci
+    have hw := spec_whole p _ _ _ _ hs (noExplicit_prefix ⟨rest, hp.symm⟩ hn)
+    exact ⟨by rw [hm, hw.1], by rw [hci, hw.2.1]⟩
+  have h := own_writes_only store ts hf sched i htx
+  cases o with
+  | returned rs => exact absurd rfl (ho rs)
+  | raisedBody =>
+    obtain ⟨_, p, rest, s, hp, hs, hm, hci⟩ := h.2.1 false hpc
+    exact key p _ s hp hs hm hci
+  | raisedBase =>
+    obtain ⟨_, p, rest, s, hp, hs, hm, hci⟩ := h.2.1 true hpc
+    exact key p _ s hp hs hm hci
+  | raisedLocked =>
+    obtain ⟨p, rest, s, hp, hs, hm, hci⟩ := h.2.2.1 (Or.inl hpc)
+    exact key p _ s hp hs hm hci
+  | cancelled =>
+    obtain ⟨p, rest, s, hp, hs, hm, hci⟩ := h.2.2.1 (Or.inr hpc)
+    exact key p _ s hp hs hm hci
+
+/-- **A cancelled task releases everything**: a task is cancelled (`Act.cancel`) while it is suspended inside its
+body; in the state right after, nothing is buffered any more, it believes to hold no lock beyond those it is about to
+release (`held` = the locks its rollback's `_unlock_updates` is working through), and once it has finished it holds none
+— under every schedule. -/
+theorem cancelled_task_releases (store : Store) (ts : List Task) (hf : FreshTasks ts) (sched : List Act) (i : Nat) :
+    let w := (World.init store ts).run sched
+    (∀ ls, (w.tasks i).pc = .unlocking ls .cancelled → (w.tasks i).locks = [] ∧ (w.tasks i).held = ls) ∧
+    ((w.tasks i).pc = .finished .cancelled → (w.tasks i).held = []) := by
+  dsimp only
+  have hti := AllTI_run store ts hf sched i
+  generalize ((World.init store ts).run sched).tasks i = t at hti ⊢
+  refine ⟨fun ls hpc => ?_, fun hpc => ?_⟩
+  · have := (hti.unl ls _ hpc).1
+    exact ⟨this, by simp [Task.held, hpc, this]⟩
+  · simp [Task.held, hpc, hti.fin _ hpc]
+
+/-- **After an explicit `tx.commit()` / `tx.rollback()` the task holds no lock and has an empty buffer**: while
+`_unlock_updates` of an explicit commit / rollback works through the locks (`midUnlock ls`), `_locks` is already empty
+(`self._locks = set()`), nothing is buffered, and the locks still to be released are distinct locks of the task's mode;
+the body resumes only after the last of them — so every later write of the same block has to take its lock again
+(`localCmd` runs a write only if `holds`).  (Seeded change C05-5 kept the released locks in `_locks`: the later
+write skipped `_lock_updates` while another transaction could take the lock.) -/
+theorem explicit_commit_releases_everything (store : Store) (ts : List Task) (hf : FreshTasks ts) (sched : List Act) (i : Nat)
+    (ls : List LockKey) :
+    let w := (World.init store ts).run sched
+    (w.tasks i).pc = .midUnlock ls →
+      (w.tasks i).locks = [] ∧ (w.tasks i).ov = [] ∧ (w.tasks i).del = [] ∧ (w.tasks i).held = ls ∧ ls.Nodup := by
+  dsimp only
+  have hti := AllTI_run store ts hf sched i
+  generalize ((World.init store ts).run sched).tasks i = t at hti ⊢
+  intro hpc
+  have h := hti.mid ls hpc
+  exact ⟨h.1, h.2.1, h.2.2.1, by simp [Task.held, hpc, h.1], h.2.2.2.1⟩
 
 /-- **No lost increments.**  All transactions run in one mode `m`, locked or serializable; `k` is a
 counter: transactions only `incr` it or re-time it (`expire`, a read-modify-write that buffers the store's
 value and writes it back at commit — it contributes 0) or read it, none `set`s (plain or conditional) or deletes
-it, and tasks outside a transaction do not write it; the schedule keeps every
+it, and tasks outside a transaction do not write it; the schedule (cancellations included) keeps every
 transaction within its timeout (`WithinTimeout`: in every state passed through, each task inside its
 transaction entered it less than `timeout` ago).  Then in the state reached — final or not — the counter
-equals its initial value plus the sum, over the transactions whose commit has reached the store, of the
-increments their programs apply to it.  (Absent counts as 0, as `incr` reads it.) -/
+equals its initial value plus the sum, over the transactions, of their increments of `k` that a commit has made
+durable (`cinc`: the increments of the segments committed explicitly by `tx.commit()`, and of the last segment once the
+commit at the end of the block has reached the store; `own_writes_only` ties `cinc` to the program: `s.cinc ++ s.pend`
+of the spec for a returned body, `s.cinc` of the executed part otherwise; increments of a segment ended by
+`tx.rollback()`, an exception or a cancellation are not in it).  (Absent counts as 0, as `incr` reads it.) -/
 theorem no_lost_increments (store : Store) (ts : List Task) (hf : FreshTasks ts) (k : Nat) (m : Mode)
     (hm : m = .locked ∨ m = .serializable)
     (hmodes : ∀ t ∈ ts, t.isTx = true → t.mode = m)
@@ -109,16 +211,46 @@ theorem no_lost_increments (store : Store) (ts : List Task) (hf : FreshTasks ts)
     (sched : List Act) (hT : WithinTimeout (World.init store ts) sched) :
     let w := (World.init store ts).run sched
     (w.store k).getD 0 = (store k).getD 0 +
-      csum (fun i => if (w.tasks i).isTx = true ∧ (w.tasks i).committed = true
-                     then incrTotal k (progOf ts i) else 0) ts.length := by
+      csum (fun i => if (w.tasks i).isTx = true then isum k (w.tasks i).cinc else 0) ts.length := by
   intro w
   have hmf : m ≠ .fast := by rcases hm with h | h <;> simp [h]
   exact (counter_run store ts hf k m hmf hmodes honly sched hT).sum
 
+/-- **No lost increments, whole blocks** (the statement in its familiar form): if moreover no body calls
+`tx.commit()` / `tx.rollback()` itself, the counter equals its initial value plus the sum, over the transactions whose
+commit has reached the store, of ALL the increments their programs apply to it — and a transaction that raised, got
+`LockedError` or was cancelled contributes nothing. -/
+theorem no_lost_increments_whole_blocks (store : Store) (ts : List Task) (hf : FreshTasks ts) (k : Nat) (m : Mode)
+    (hm : m = .locked ∨ m = .serializable)
+    (hmodes : ∀ t ∈ ts, t.isTx = true → t.mode = m)
+    (honly : ∀ t ∈ ts, OnlyIncr k t.isTx t.prog)
+    (hwhole : ∀ t ∈ ts, NoExplicit t.prog)
+    (sched : List Act) (hT : WithinTimeout (World.init store ts) sched) :
+    let w := (World.init store ts).run sched
+    (w.store k).getD 0 = (store k).getD 0 +
+      csum (fun i => if (w.tasks i).isTx = true ∧ (w.tasks i).committed = true
+                     then incrTotal k (progOf ts i) else 0) ts.length := by
+  have h := no_lost_increments store ts hf k m hm hmodes honly sched hT
+  dsimp only at h ⊢
+  rw [h]
+  congr 1
+  refine csum_congr (fun i hi => ?_)
+  by_cases hx : (((World.init store ts).run sched).tasks i).isTx = true
+  · have ho := own_run store ts hf sched i hx
+    have hp : progOf ts i = (ts[i]).prog := by
+      unfold progOf
+      rw [List.getD_eq_getElem?_getD, List.getElem?_eq_getElem hi]; rfl
+    have hn : NoExplicit (progOf ts i) := by rw [hp]; exact hwhole _ (List.getElem_mem hi)
+    have := contrib_whole (k := k) ho hx hn
+    simp only [contrib] at this
+    rw [this]
+    simp [hx, progOf]
+  · simp [hx]
+
 /-- the key invariant behind it, exposed: while a transaction has the counter buffered — seeded by its first
 `incr` or buffered by an `expire` — it holds the lock that protects it, and what it has buffered is the store's
-*current* value plus its own increments so far: the store's value has not changed since the transaction read it
-(so the value an `expire` writes back at commit is never stale) -/
+*current* value plus the increments it has issued since its last commit / rollback: the store's value has not changed
+since the transaction read it (so the value an `expire` writes back at commit is never stale) -/
 theorem buffered_counter_is_current (store : Store) (ts : List Task) (hf : FreshTasks ts) (k : Nat) (m : Mode)
     (hm : m = .locked ∨ m = .serializable)
     (hmodes : ∀ t ∈ ts, t.isTx = true → t.mode = m)
@@ -126,8 +258,7 @@ theorem buffered_counter_is_current (store : Store) (ts : List Task) (hf : Fresh
     (sched : List Act) (hT : WithinTimeout (World.init store ts) sched) (i : Nat) (v : Int) :
     let w := (World.init store ts).run sched
     (w.tasks i).ctx = true → (w.tasks i).active = true → (w.tasks i).ov.get k = some v →
-      lockKeyOf m k ∈ (w.tasks i).held ∧
-      v + incrTotal k (w.tasks i).rem = (w.store k).getD 0 + incrTotal k (progOf ts i) := by
+      lockKeyOf m k ∈ (w.tasks i).held ∧ v = (w.store k).getD 0 + isum k (w.tasks i).pend := by
   intro w hc ha hv
   have hmf : m ≠ .fast := by rcases hm with h | h <;> simp [h]
   have hci := counter_run store ts hf k m hmf hmodes honly sched hT
@@ -138,6 +269,7 @@ theorem buffered_counter_is_current (store : Store) (ts : List Task) (hf : Fresh
   unfold Task.held
   split
   · rename_i hpc; simp [Task.active, hpc] at ha
+  · exact List.mem_append_left _ hb.1
   · exact hb.1
 
 /-- **Re-timing keeps the value.**  Same setting; if nobody writes `k` at all (transactions only `expire` or read
@@ -150,16 +282,6 @@ theorem retime_only_keeps_value (store : Store) (ts : List Task) (hf : FreshTask
     (sched : List Act) (hT : WithinTimeout (World.init store ts) sched) :
     let w := (World.init store ts).run sched
     (w.store k).getD 0 = (store k).getD 0 := by
-  intro w
-  have hz : ∀ p : List Cmd, (∀ c ∈ p, c.writes k = false) → incrTotal k p = 0 := by
-    intro p
-    induction p with
-    | nil => intro _; rfl
-    | cons c r ih =>
-      intro h
-      have hr := ih (fun c' hc' => h c' (List.mem_cons_of_mem _ hc'))
-      have hc := h c List.mem_cons_self
-      cases c <;> simp_all [incrTotal, Cmd.writes]
   have honly : ∀ t ∈ ts, OnlyIncr k t.isTx t.prog := by
     intro t ht
     unfold OnlyIncr
@@ -169,15 +291,18 @@ theorem retime_only_keeps_value (store : Store) (ts : List Task) (hf : FreshTask
       cases c <;> simp_all [Cmd.writes, Cmd.clobbers]
     · exact hro t ht
   have h := no_lost_increments store ts hf k m hm hmodes honly sched hT
+  dsimp only at h ⊢
   rw [h, csum_zero]; · simp
   intro i hi
-  split
-  · have : progOf ts i = (ts[i]).prog := by
+  by_cases hx : (((World.init store ts).run sched).tasks i).isTx = true
+  · have ho := own_run store ts hf sched i hx
+    have hp : progOf ts i = (ts[i]).prog := by
       unfold progOf
       rw [List.getD_eq_getElem?_getD, List.getElem?_eq_getElem hi]; rfl
-    rw [this]
-    exact hz _ (hro _ (List.getElem_mem hi))
-  · rfl
+    have hn : ∀ c ∈ progOf ts i, c.writes k = false := by rw [hp]; exact hro _ (List.getElem_mem hi)
+    have := contrib_nowrite (k := k) ho hx hn
+    simpa [contrib, hx] using this
+  · simp [hx]
 
 /-- **Lock holders exclude each other** (locked mode: per key; serializable: the one global lock), for every
 schedule within the timeouts: two tasks never believe to hold the same lock, and a held lock is recorded in
@@ -189,9 +314,10 @@ theorem lock_exclusive (store : Store) (ts : List Task) (hf : FreshTasks ts)
   intro w h1 h2
   exact (LockInv_run store ts hf sched hT).2.exclusive h1 h2
 
-/-- **Write phases are disjoint (serializable).**  The write phase of a transaction is from the step that
-acquires the lock (before its first write) to the step that releases it (after commit or rollback) — the
-states in which `held ≠ []`.  Under every schedule within the timeouts, two serializable transactions are
+/-- **Write phases are disjoint (serializable).**  A write phase of a transaction is from the step that
+acquires the lock (before the first write of a segment) to the step that releases it (after the commit or rollback
+that ends the segment: at the end of the block, or an explicit `tx.commit()` / `tx.rollback()` — a body with explicit
+commits has one write phase per segment that writes) — the states in which `held ≠ []`.  Under every schedule within the timeouts, two serializable transactions are
 never in their write phases at the same time. -/
 theorem write_phases_disjoint (store : Store) (ts : List Task) (hf : FreshTasks ts)
     (sched : List Act) (hT : WithinTimeout (World.init store ts) sched) (i j : Nat) (hij : i ≠ j) :
@@ -211,6 +337,10 @@ theorem write_phases_disjoint (store : Store) (ts : List Task) (hf : FreshTasks 
         rcases List.mem_append.mp hl with h | h
         · exact hti.shape l h
         · exact (hti.unl ls o hpc).2.2.1 l h
+      · rename_i ls hpc
+        rcases List.mem_append.mp hl with h | h
+        · exact hti.shape l h
+        · exact (hti.mid ls hpc).2.2.2.2.1 l h
       · exact hti.shape l hl
     obtain ⟨k, hk⟩ := hshape
     rw [hma] at hk
@@ -220,20 +350,27 @@ theorem write_phases_disjoint (store : Store) (ts : List Task) (hf : FreshTasks 
 
 /-- **The store is written inside the write phase.**  Under every schedule (no timing hypothesis), a
 transaction in locked or serializable mode that is about to issue a commit command (`delete_many` /
-`set_many` — by `own_writes_only` the only store mutations it ever makes) is in its write phase: it holds a
-lock.  Together with `write_phases_disjoint`: in serializable mode, at the moment a transaction writes the
-store no other transaction is between its lock and its unlock — in particular no other commit falls between
-a transaction's `delete_many` and its `set_many`. -/
+`set_many`, of the commit at the end of the block or of an explicit `tx.commit()` — by `own_writes_only` the only
+store mutations it ever makes) is in a write phase: it holds a lock.  Together with `write_phases_disjoint`: in
+serializable mode, at the moment a transaction writes the store no other transaction is between its lock and its
+unlock — in particular no other commit falls between a transaction's `delete_many` and its `set_many`; and a write
+issued after an explicit commit cannot reach the store under a lock the transaction has already given back. -/
 theorem commit_inside_write_phase (store : Store) (ts : List Task) (hf : FreshTasks ts) (sched : List Act) (i : Nat) :
     let w := (World.init store ts).run sched
-    (w.tasks i).mode ≠ .fast → ((w.tasks i).pc = .commitDel ∨ (w.tasks i).pc = .commitSet) → (w.tasks i).held ≠ [] := by
+    (w.tasks i).mode ≠ .fast →
+      ((w.tasks i).pc = .commitDel ∨ (w.tasks i).pc = .commitSet ∨ (w.tasks i).pc = .midDel ∨ (w.tasks i).pc = .midSet) →
+      (w.tasks i).held ≠ [] := by
   intro w hm hpc
   have h : WLp (w.tasks i) := WLp_run store ts hf sched i
   generalize w.tasks i = t at hm hpc h ⊢
-  rcases hpc with hpc | hpc
+  rcases hpc with hpc | hpc | hpc | hpc
   · have := h.locks (by simp [Task.active, hpc]) hm (Or.inr (Or.inl (h.cdel hpc)))
     simpa [Task.held, hpc] using this
   · have := h.locks (by simp [Task.active, hpc]) hm (Or.inl (h.cset hpc))
+    simpa [Task.held, hpc] using this
+  · have := h.locks (by simp [Task.active, hpc]) hm (Or.inr (Or.inl (h.mdel hpc)))
+    simpa [Task.held, hpc] using this
+  · have := h.locks (by simp [Task.active, hpc]) hm (Or.inl (h.mset hpc))
     simpa [Task.held, hpc] using this
 
 /-! ### Non-vacuity: the hypotheses are satisfiable and the model does something -/
@@ -338,7 +475,7 @@ example : ((World.init (fun _ => none) exSetx).run
 /-- a task outside any transaction next to a transaction: its `set` is in the store in the very step, while the
 transaction's own write of the same key waits for the commit -/
 def exMixed : List Task :=
-  [{ isTx := true, mode := .locked, timeout := 40, form := .ctx, prog := [.set 1 5, .nestIn .dec, .incr 0 1, .nestOut, .raise] },
+  [{ isTx := true, mode := .locked, timeout := 40, form := .ctx, prog := [.set 1 5, .nestIn .dec, .incr 0 1, .nestOut, .raise false] },
    { isTx := false, mode := .fast, timeout := 0, form := .ctx, prog := [.set 1 8, .get 1] }]
 
 example : ((World.init (fun _ => none) exMixed).run [.run 0, .run 0, .run 1, .run 1]).store 1 = some 8 := by decide
@@ -350,6 +487,81 @@ example : mineOf ((World.init (fun _ => none) exMixed).run
     [.run 0, .run 0, .run 1, .run 1, .run 0, .run 0, .run 0, .run 0, .run 1]) 0 = [] := by decide
 example : ((World.init (fun _ => none) exMixed).run
     [.run 0, .run 0, .run 1, .run 1, .run 0, .run 0, .run 0, .run 0, .run 1]).store 0 = none := by decide
+
+
+/-- **cancellation**: task 0 has incremented the counter and written key 1 (two locks held, both writes buffered) and is
+asleep inside its block when it is cancelled; task 1 waits for the counter's lock meanwhile -/
+def exCancel (m : Mode) : List Task :=
+  [{ isTx := true, mode := m, timeout := 40, form := .ctx, prog := [.incr 0 1, .set 1 5, .sleep 2, .incr 0 1] },
+   { isTx := true, mode := m, timeout := 40, form := .dec, prog := [.incr 0 2] }]
+
+def exCancelSched : List Act :=
+  [.run 0, .run 0, .run 0, .run 0, .run 1, .run 1, .cancel 0, .run 0, .run 0, .adv 4, .run 1, .run 1, .run 1, .run 1]
+
+example : WithinTimeout (World.init exStore1 (exCancel .locked)) exCancelSched :=
+  withinTimeout_of_check _ _ (by intro t ht; simp [exCancel] at ht; rcases ht with rfl | rfl <;> constructor <;> rfl) _ (by decide)
+example : NoExplicit (exCancel .locked)[0].prog := by intro c hc; simp [exCancel] at hc; rcases hc with rfl | rfl | rfl | rfl <;> rfl
+/-- before the cancellation: asleep in the body, both writes buffered, both locks held; task 1 is refused the lock -/
+example : (((World.init exStore1 (exCancel .locked)).run (exCancelSched.take 6)).tasks 0).pc = .bodySleep 10 := by decide
+example : (((World.init exStore1 (exCancel .locked)).run (exCancelSched.take 6)).tasks 0).ov = [(0, 2), (1, 5)] := by decide
+example : (((World.init exStore1 (exCancel .locked)).run (exCancelSched.take 6)).tasks 0).held = [some 0, some 1] := by decide
+example : (((World.init exStore1 (exCancel .locked)).run (exCancelSched.take 6)).tasks 1).pc = .lockSleep 0 9 4 := by decide
+/-- right after it: buffer dropped, the rollback's `_unlock_updates` is working through the two locks -/
+example : (((World.init exStore1 (exCancel .locked)).run (exCancelSched.take 7)).tasks 0).pc
+    = .unlocking [some 0, some 1] .cancelled := by decide
+example : (((World.init exStore1 (exCancel .locked)).run (exCancelSched.take 7)).tasks 0).ov = [] := by decide
+/-- at the end: the caller of task 0 got the cancellation, no step of task 0 touched the store, task 1 got the lock and
+committed on top of the untouched value: 1 + 2 -/
+example : (((World.init exStore1 (exCancel .locked)).run exCancelSched).tasks 0).pc = .finished .cancelled := by decide
+example : mineOf ((World.init exStore1 (exCancel .locked)).run exCancelSched) 0 = [] := by decide
+example : ((World.init exStore1 (exCancel .locked)).run exCancelSched).store 0 = some 3 := by decide
+example : ((World.init exStore1 (exCancel .locked)).run exCancelSched).store 1 = none := by decide
+example : ((World.init exStore1 (exCancel .serializable)).run exCancelSched).store 0 = some 3 := by decide
+/-- cancelled while waiting for a lock (in the sleep between two `set_lock` attempts): nothing held, nothing applied -/
+example : (((World.init exStore1 (exCancel .locked)).run (exCancelSched.take 6 ++ [.cancel 1])).tasks 1).pc
+    = .finished .cancelled := by decide
+/-- a body that raises a `BaseException` which is not an `Exception`: rolled back like any other -/
+example : (((World.init exStore1 [{ isTx := true, mode := .locked, timeout := 40, form := .ctx, prog := [.incr 0 1, .raise true] }]).run
+    [.run 0, .run 0, .run 0, .run 0]).tasks 0).pc = .finished .raisedBase := by decide
+example : ((World.init exStore1 [{ isTx := true, mode := .locked, timeout := 40, form := .ctx, prog := [.incr 0 1, .raise true] }]).run
+    [.run 0, .run 0, .run 0, .run 0]).store 0 = some 1 := by decide
+
+/-- **explicit `tx.commit()` in the middle of a body**: task 0 increments, commits, increments again; after the commit it
+holds no lock, so task 1 gets the counter's lock in between and task 0's second `incr` has to wait for it -/
+def exMid (m : Mode) : List Task :=
+  [{ isTx := true, mode := m, timeout := 40, form := .ctx, prog := [.incr 0 1, .commit, .incr 0 1] },
+   { isTx := true, mode := m, timeout := 40, form := .ctx, prog := [.incr 0 5] }]
+
+def exMidSched : List Act :=
+  [.run 0, .run 0, .run 0, .run 0, .run 0, .run 1, .run 1, .run 0, .run 1, .run 1, .run 1, .adv 4, .run 0, .run 0, .run 0, .run 0]
+
+example : WithinTimeout (World.init (fun _ => none) (exMid .locked)) exMidSched :=
+  withinTimeout_of_check _ _ (by intro t ht; simp [exMid] at ht; rcases ht with rfl | rfl <;> constructor <;> rfl) _ (by decide)
+example : ∀ t ∈ exMid .locked, OnlyIncr 0 t.isTx t.prog := by
+  intro t ht
+  simp [exMid] at ht
+  rcases ht with rfl | rfl <;> simp [OnlyIncr, Cmd.clobbers]
+/-- parked before the `set_many` of the explicit commit, then before the unlock (premise of
+`explicit_commit_releases_everything`), then — the body having resumed — before `set_lock` again -/
+example : (((World.init (fun _ => none) (exMid .locked)).run (exMidSched.take 3)).tasks 0).pc = .midSet := by decide
+example : (((World.init (fun _ => none) (exMid .locked)).run (exMidSched.take 4)).tasks 0).pc = .midUnlock [some 0] := by decide
+example : (((World.init (fun _ => none) (exMid .locked)).run (exMidSched.take 5)).tasks 0).pc = .lockTry 0 9 := by decide
+example : (((World.init (fun _ => none) (exMid .locked)).run (exMidSched.take 5)).tasks 0).held = [] := by decide
+/-- task 1 takes the lock; task 0's second increment is refused it and sleeps -/
+example : (((World.init (fun _ => none) (exMid .locked)).run (exMidSched.take 8)).tasks 0).pc = .lockSleep 0 9 4 := by decide
+example : (((World.init (fun _ => none) (exMid .locked)).run (exMidSched.take 8)).tasks 1).held = [some 0] := by decide
+/-- nothing is lost: 1 (committed explicitly) + 5 + 1; task 0 made two commits, its durable increments are both -/
+example : ((World.init (fun _ => none) (exMid .locked)).run exMidSched).store 0 = some 7 := by decide
+example : ((World.init (fun _ => none) (exMid .serializable)).run exMidSched).store 0 = some 7 := by decide
+example : mineOf ((World.init (fun _ => none) (exMid .locked)).run exMidSched) 0 = [.setMany [(0, 1)], .setMany [(0, 7)]] := by decide
+example : (((World.init (fun _ => none) (exMid .locked)).run exMidSched).tasks 0).cinc = [(0, 1), (0, 1)] := by decide
+example : (((World.init (fun _ => none) (exMid .locked)).run exMidSched).tasks 0).pc = .finished (.returned [some 1, some 7]) := by decide
+/-- an explicit rollback drops the first increment (and releases the lock), a cancellation after an explicit commit keeps
+what was committed: `[incr; rollback; incr; commit; incr]` cancelled while parked before the last increment's read -/
+example : (fun w : World => (w.store 0, (w.tasks 0).pc, mineOf w 0, (w.tasks 0).cinc))
+    ((World.init (fun _ => none) [{ isTx := true, mode := .serializable, timeout := 40, form := .ctx, prog := [.incr 0 1, .rollback, .incr 0 2, .commit, .incr 0 4] }]).run
+      [.run 0, .run 0, .run 0, .run 0, .run 0, .run 0, .run 0, .run 0, .run 0, .cancel 0, .run 0]) =
+    (some 2, .finished .cancelled, [.setMany [(0, 2)]], [(0, 2)]) := by decide
 
 end examples
 
